@@ -31,6 +31,9 @@ position) as its bases.  Mirrored mechanism:
 non-empty sequence → `Array(reflect(value[0]))`, a non-empty mapping with keys of one type → `Map` when the values are
 of one type too, `Struct` when the keys are strings                                                → `PyVal.reflect`
 
+**Anonymous references.**  `Reference.__new__(instance, None)` draws a name; the name is all that tells two anonymous
+references to one source apart once they are pickled                                              → `AnonNamer`, `anonRef`
+
 Core Lean only.
 -/
 import ForML.Model.DslEq
@@ -338,6 +341,21 @@ def PyVals.reflectAll : PyVals → Option Kinds
     | some k, some ks => some (.cons k ks)
     | _, _ => none
 end
+
+/-! ### anonymous references (`frame.Reference.__new__` without a name) -/
+
+/-- How a process names its anonymous references: a function of the process (whatever distinguishes one interpreter
+from another: its entropy, its start-up state) and of the number of names it has drawn before.
+`Reference.__new__`: `''.join(random.choice(string.ascii_lowercase) for _ in range(8))` — the module-level
+`random` generator is seeded from the operating system when the interpreter starts. -/
+abbrev AnonNamer (P : Type) := P → Nat → String
+
+/-- the `i`-th anonymous reference to `s` made by process `p`, as it is anywhere after pickling: the reducer ships
+`(instance, name)` (`Source.__getnewargs__`), nothing else of the reference's origin survives -/
+def anonRef {P : Type} (name : AnonNamer P) (s : Source) (p : P) (i : Nat) : Source := .ref s (name p i)
+
+/-- a per-process serial (`ref1`, `ref2`, …): the same in every process -/
+def counterNamer {P : Type} : AnonNamer P := fun _ i => "ref" ++ toString (i + 1)
 
 /-! ### wire format -/
 
